@@ -225,6 +225,20 @@ PROPS.update({
  },
 })
 
+
+PROPS.update({
+ "C18": {
+  "level": "exploration", "design_ref": "DESIGN.md §5 P-C18",
+  "technique": "seeded generation of (IPv4, IPv6, raw, raw-APPEND) part triples whose entries are all distinct; the effective target is materialised by letting the real tool approve onto an empty simulated device (ASA/IOS: emitted script executed on the node; Linux: emitted iptables-restore file loaded by the node's parser; PAN-OS/NSX: full simulated HTTP session in a bubble) and read back from the node",
+  "level_text": "Oracle states only the constraints of the property: each entry of each part exactly once and nothing else, order inside each part kept, raw before Netspoc unless APPEND, APPEND behind the last permitting Netspoc entry and before the trailing deny/drop entries; a rejected input is accepted as such (never silently shortened). No faults: the property has none; the simulator is used as the device that holds the effective result.",
+  "level_note": "ASA, IOS (v4+raw), Linux (v4+raw), PAN-OS (v4+v6+raw), NSX (as a multiset; NSX rules are ordered by sequence number, not position).",
+  "rule": "case = part triple; non-trivial = accepted case whose effective list was checked; distinct = hash of the part files",
+  "quick": B(3000, 40), "thorough": B(200000, 900),
+  "real": ["pkg/drc, pkg/device (file merge), pkg/cisco, pkg/asa, pkg/ios, pkg/linux, pkg/panos, pkg/nsx, pkg/httpdevice"],
+  "stubs": ["device nodes /verif/sim/{cisco,linuxdev,panosdev,nsxdev}"], "assumptions": ["the node applies commands/requests like the device (trusted base)"], "min_nontrivial": 50,
+ },
+})
+
 # Properties without a registered check: id -> reason.
 NOT_CLAIMED = {
 }
